@@ -112,7 +112,7 @@ def main(pid, tier, seed):
     for k in range(1, 4):
         strs += list(itertools.product(CLASSES, repeat=k))
     files = [[(n, s)] for s in strs for n in (1, 2)]                      # every single-record file of the model space
-    for _ in range(150 if tier == 'quick' else 3000):                     # random multi-record files
+    for _ in range(150 if tier == 'quick' else 12000):                     # random multi-record files
         files.append([(rng.randint(1, 3), rng.choice(strs)) for _ in range(rng.randint(2, 4))])
     # extra kinds outside the class alphabet: undecodable bytes, $HEX[ look-alikes
     n_files = 0
@@ -167,7 +167,7 @@ def main(pid, tier, seed):
                      'meant': want, 'num_encoding_errors': nerr}
 
     # whole trainings: plain vs hex vs count-prefixed lists give identical rulesets
-    n_same = 3 if tier == 'quick' else 25
+    n_same = 3 if tier == 'quick' else 90
     for k in range(n_same):
         encoding = ['iso-8859-1', 'utf-8', 'cp1251'][k % 3]         # a non-UTF-8 encoding in every run
         base = ['password', 'pass word', ' lead', 'trail ', 'abc123', 'qwerty12', '12345', 'a!b', '$HEX[look', 'x' * 5]
